@@ -61,6 +61,32 @@ static void one(const std::string& s) {
     threw = true;
   }
   if (!threw) one_view<T>(s, got);
+  // the answer is a function of the bytes only: the same call with errno left at ERANGE (and at EDOM) by some earlier, unrelated
+  // call must give the same answer
+  static unsigned long every = 0;
+  if (s.size() <= 3 || s.size() > 6 || (every++ % 8) == 0)
+  for (int stale : {ERANGE, EDOM}) {
+    std::optional<T> again;
+    bool threw2 = false;
+    errno = stale;
+    try {
+      again = PhQ::ParseNumber<T>(s);
+    } catch (...) {
+      threw2 = true;
+    }
+    errno = 0;
+    vf::stat("parses_with_stale_errno");
+    if (threw2 != threw || again.has_value() != got.has_value() || (got.has_value() && !vf::same_bits(again.value(), got.value()))) {
+      std::string hx;
+      for (unsigned char c : s) {
+        char b[4];
+        std::snprintf(b, sizeof b, "%02x", c);
+        hx += b;
+      }
+      vf::viol(std::string("parse-number|") + vf::TName<T>::value + "|depends-on-errno", "{\"string_hex\":\"" + hx + "\",\"errno_before_the_call\":" + std::to_string(stale) + "}");
+      break;
+    }
+  }
   errno = 0;
   char* end = nullptr;
   const T v = strto<T>(s.c_str(), &end);
